@@ -423,6 +423,9 @@ func checkC14(c *Ctx) {
 			c.Rep.Fatal(err.Error())
 			return
 		}
+		if projReplay(c, raw, "completion") {
+			return
+		}
 		jb := c14Build(c.Seed)(1, raw)
 		jb.Raw = raw
 		p := c.NewPool(1)
@@ -432,6 +435,8 @@ func checkC14(c *Ctx) {
 	}
 	p := c.NewPool(0)
 	scopeRuns(c, p, c14Build(c.Seed), func(j *Job, r *proto.Result) { c14Judge(c, j, r) })
+	// Project.tla: workspaces analysed as a project (entry file + what it requires), both modes
+	projectRuns(c, p, 0, "completion")
 	c.poolStats(p)
 	if surveyMode {
 		sv.dump()
